@@ -29,8 +29,9 @@ seed = int(sys.argv[2]) if len(sys.argv) > 2 else 0
 QUICK = tier != 'thorough'
 NPROC = 16
 CALL_LIMIT = 10.0 if QUICK else 30.0       # seconds for one history() call / one open
-JOB_BUDGET = 30.0 if QUICK else 540.0      # a job stops generating new cases after this
-JOB_KILL = 50.0 if QUICK else 780.0        # the parent kills a job after this
+T_START = time.time()
+DEADLINE = T_START + (42.0 if QUICK else 700.0)   # no new case is started after this (cases left over are counted)
+HARD_END = T_START + (56.0 if QUICK else 850.0)   # the parent kills whatever still runs
 LISTDIR = os.path.join(REPO, 'tests', 'listing')
 TSPEC = {'element': 'e', 'connection': 'c', 'generation': 'g', 'primary': 'p', 'element1': 'e1', 'element2': 'e2'}
 CONTRACTS = ('terminates', 'shape', 'values', 'times', 'restore')
@@ -208,7 +209,18 @@ class Oracle(object):
         return name, r, sign, c
 
     def series(self, item, short):
-        """Expected (times, values) of one item."""
+        """Acceptable (times, values) of one item: normally one; None = no verdict.  A row given by position
+        whose name is printed more than once in the full table cannot be matched to a row of the short
+        tables by name, so both readings (with and without the short results) are accepted."""
+        name, r, sign, c = self.resolve(item)
+        one = self.series1(item, short)
+        if one is None or not short or self.outputs is None:
+            return None if one is None else [one]
+        if self.rows[name].count(self.rows[name][r]) > 1:
+            return [one, self.series1(item, False)]
+        return [one]
+
+    def series1(self, item, short):
         name, r, sign, c = self.resolve(item)
         full = sign * self.data[name][:, r, c]
         if not (short and self.outputs is not None and any(o['short'] for o in self.outputs)):
@@ -333,6 +345,10 @@ class Runner(object):
                 if want is None:
                     continue
                 bump('values')
+                if len(want) > 1 and contract_values(pairs[k][1], want[1][1])[0]:
+                    want = want[1]
+                else:
+                    want = want[0]
                 ok, detail = contract_values(pairs[k][1], want[1])
                 if not ok:
                     cat = 'history-value'
@@ -376,7 +392,7 @@ def gen_cases(ora, rnd):
     n = ora.n
     has_short = ora.outputs is not None and any(o['short'] for o in ora.outputs)
     shorts = (True, False) if has_short else (True,)
-    starts_few = sorted(set([0, n - 1]))
+    starts_few = sorted(set([0, n - 1, n // 2]))
     starts_all = list(range(n))
 
     def rowpick(t, kind):
@@ -427,22 +443,32 @@ def gen_cases(ora, rnd):
                 cases.append(('A', sel, 'list', sh, st))
     # B: per table, rows first/last/interior x name/int/reversed x columns, tuple and list form
     for t in tables:
-        rs = [rowpick(t, 'first'), rowpick(t, 'last'), rowpick(t, 'interior'), rowpick(t, 'interior')] + srows[t][:2] + srows[t][-1:]
+        rs = [rowpick(t, 'first'), rowpick(t, 'last'), rowpick(t, 'second')] + [rowpick(t, 'interior') for _ in range(2 if QUICK else 6)] + srows[t][:2] + srows[t][-1:]
         rs = sorted(set(rs))
         cs = list(ora.cols[t])
         fm = ['name', 'int'] + (['rev'] if ora.revok[t] else []) + ['neg']
         for ir, r in enumerate(rs):
             for f in fm:
                 if f == 'neg' and ir not in (0, len(rs) - 1): continue
-                cc = cs if not QUICK else [cs[(ir + k) % len(cs)] for k in (0, len(cs) // 2)]
+                cc = cs if not QUICK else sorted(set(cs[(ir + k) % len(cs)] for k in (0, len(cs) // 3, 2 * len(cs) // 3)), key=cs.index)
                 if f == 'neg': cc = cs[:1]                  # negative row index: once per table end
                 for ic, c in enumerate(cc):
                     for form in ('tuple', 'list'):
                         if (QUICK or f == 'neg') and form == 'list' and ic + (f == 'neg'): continue
                         for sh in shorts:
                             cases.append(('B', [(spec(t), keyform(t, r, f), c)], form, sh, (ir + ic) % n if not QUICK else starts_few[(ir + ic) % len(starts_few)]))
+    # R: every row of every table (quick: a sample), 8 rows per call in shuffled order
+    for t in tables:
+        nr = len(ora.rows[t])
+        rows = list(range(nr))
+        rnd.shuffle(rows)
+        if QUICK: rows = rows[:160 if nr * len(tables) < 3000 else 40]
+        for b in range(0, len(rows), 8):
+            sel = [(spec(t), keyform(t, r, ['name', 'int', 'rev', 'name'][(b + j) % 4]), ora.cols[t][(b // 8 + j) % len(ora.cols[t])])
+                   for j, r in enumerate(rows[b:b + 8])]
+            cases.append(('R', sel, 'list', shorts[(b // 8) % len(shorts)], (b // 8) % n))
     # C: several items, several rows per table in arbitrary order, repeated rows and items
-    for k in range(40 if QUICK else 500):
+    for k in range((150 if sum(len(ora.rows[t]) for t in tables) < 3000 else 40) if QUICK else 2500):
         m = rnd.choice([2, 2, 3, 4, 6, 9])
         ts = [rnd.choice(tables) for _ in range(m)] if k % 3 else [rnd.choice(tables)] * m
         sel = []
@@ -497,7 +523,7 @@ def run_job(job, conn, progfile):
         seen = set()
         nshrunk = 0
         for (part, sel, form, short, start) in cases:
-            if time.time() - t0 > JOB_BUDGET:
+            if time.time() > DEADLINE:
                 out['skipped'] += 1
                 continue
             sel = [it for it in sel if ora.resolve(it) is not None]
@@ -538,9 +564,10 @@ def run_job(job, conn, progfile):
             if len(out['samples']) < 1 and part == 'A' and len(sel) > 1 and not viol:
                 w = ora.series(sel[0], short)
                 out['samples'].append({'file': rel, 'selection': js(sel), 'short': short, 'start': start,
-                                       'first_item_values': [float(x) for x in (w[1][:3] if w else [])]})
+                                       'first_item_values': [float(x) for x in (w[0][1][:3] if w else [])]})
         out['counts'] = run.counts
         out['distinct'] = len(seen)
+        out['seconds'] = time.time() - t0
         run.drop()
         conn.send(out)
     except BaseException as e:
@@ -573,7 +600,7 @@ def run_jobs(jobs, tmp):
                 except EOFError: done = 'crash'
             elif not p.is_alive():
                 done = 'crash'
-            elif time.time() - t0 > JOB_KILL:
+            elif time.time() > HARD_END:
                 done = 'killed'
             if done is None:
                 continue
@@ -584,7 +611,7 @@ def run_jobs(jobs, tmp):
                 cat = 'timeout' if done == 'killed' else 'worker-crash'
                 done = {'rel': job[0], 'counts': {}, 'distinct': 0, 'nfailures': 1, 'samples': [], 'skipped': 0, 'cases': 0,
                         'failures': [{'key': '%s %s %s' % (cat, job[0], cur), 'what': 'worker process %s while evaluating %s (job %r)' %
-                                      ('had to be killed after %g s' % JOB_KILL if cat == 'timeout' else 'died', cur, job), 'input': {'file': job[0], 'case': cur}}]}
+                                      ('had to be killed %.0f s after it started' % (time.time() - t0) if cat == 'timeout' else 'died', cur, job), 'input': {'file': job[0], 'case': cur}}]}
             p.join(5); a.close()
             results[idx] = done
             del running[idx]
@@ -600,9 +627,8 @@ def main():
         for rel in files:
             size = os.path.getsize(os.path.join(LISTDIR, rel))
             k = 1
-            if rel.startswith('TOUGHplus'): k = 3 if QUICK else 12
-            elif size > 700000: k = 3 if QUICK else 6
-            elif not QUICK: k = 3
+            plus = rel.startswith('TOUGHplus')             # 5 tables: 325 ordered subsets
+            k = max(4 if plus else 1, size // 220000) if QUICK else max(4, size // 50000) * (2 if plus else 1)
             jobs += [(rel, c, k) for c in range(k)]
         # the heaviest first
         jobs.sort(key=lambda j: (-(os.path.getsize(os.path.join(LISTDIR, j[0])) * (5 if j[0].startswith('TOUGHplus') else 1)), j))
@@ -625,7 +651,8 @@ def main():
         (first if per[k] <= 3 else rest).append(f)
     shown = (first + rest)[:60]
     samples = samples[:5]
-    samples.append({'contract_evaluations': counts, 'history_calls': ncases, 'files': len(files), 'jobs': len(jobs),
+    slow = sorted(((round(r.get('seconds', -1), 1), r['rel'], r['cases']) for r in res), reverse=True)[:3]
+    samples.append({'contract_evaluations': counts, 'slowest_jobs': slow, 'history_calls': ncases, 'files': len(files), 'jobs': len(jobs),
                     'cases_skipped_for_time': skipped})
     print('@@JSON@@' + json.dumps({'evaluations': sum(counts.values()), 'distinct': distinct, 'failures': shown,
                                    'nfailures': nfail, 'samples': samples, 'seconds': time.time() - t0}))
